@@ -157,6 +157,13 @@ def units(tier):
             continue
         us.append(Unit('C01/D/%s[%s]' % (c['solver'], _cid(c)), u_cert, dict(cfg=c), wall_s=60 if tier == 'quick' else 240, max_paths=4000, timeout_ms=6000 if tier == 'quick' else 20000,
                        patched=c['solver'] in ('ProxNewton', 'GroupProxNewton') or bool(c.get('acc_stub'))))
+    # inductive complement (S): the prox-Newton line searches keep the buffers the certificate is computed from consistent
+    from checks import steps as ST
+    for X, fi in (('corr32', False), ('corr32', True)):
+        us.append(Unit('C01/S/pn_linesearch[X=%s,intercept=%s]' % (X, fi), ST.u_pn_linesearch, dict(X=X, fit_intercept=fi),
+                       wall_s=120, timeout_ms=8000, patched=True))
+        us.append(Unit('C01/S/group_pn_linesearch[intercept=%s]' % fi, ST.u_pn_linesearch,
+                       dict(X='corr32', fit_intercept=fi, group=True), wall_s=120, timeout_ms=8000, patched=True))
     return us
 
 
